@@ -99,14 +99,16 @@ class OptSim(Sim):
               "illegal_hyperparams_refused", "param_without_grad_skipped", "backward_fault_then_recovery",
               "variant_pruned", "momentum_plain", "adam", "adamw", "sgd", "optimizer_recreated", "requires_grad_toggled_mid_run",
               "tied_parameters_share_storage", "tied_parameters_both_updated",
-              "interrupted_backward_retried_on_same_graph", "accumulated_gradient_checked", "numpy_scalar_hyperparameters", "tie_dissolved_by_rebinding"]
+              "interrupted_backward_retried_on_same_graph", "accumulated_gradient_checked", "numpy_scalar_hyperparameters",
+              "parameter_data_rebound_by_initialiser_after_optimizer_was_built", "more_than_128_parameter_tensors"]
     RULE = ("one run = parameters + 1-2 optimizers with swarm hyper-parameters and a seeded interleaving of backward/zero_grad/step events; "
             "distinct = optimizer kinds x non-default hyper-parameter set x event-kind sequence; non-trivial = at least two steps compared")
     ASSUMPTIONS = ["the gradient fed to the model at each step is the one the system accumulated (C04 decides accumulation)",
                    "float32 trajectories are compared step by step with the parameter re-read before every step (no drift)"]
 
     def knobs(self, rng, tier):
-        return {"max_events": rng.randint(6, 40), "n_params": rng.randint(1, 4), "two_opts": rng.random() < 0.35,
+        many = rng.random() < 0.008          # rarely a model with 130-170 (tiny) parameter tensors: per-parameter state pools and caches
+        return {"max_events": rng.randint(6, 40) + (170 if many else 0), "n_params": rng.randint(130, 170) if many else rng.randint(1, 4), "two_opts": rng.random() < 0.35,
                 "faulty": rng.random() < 0.25, "p_step": rng.choice([0.25, 0.4]), "p_zero": rng.choice([0.05, 0.2, 0.35])}
 
     # ------------------------------------------------------------------ state
@@ -177,6 +179,9 @@ class OptSim(Sim):
                 return {"k": "opt_bad", "how": bad, "params": ids}
             k = rng.randint(1, len(ids))
             kind = rng.choice(["SGD", "SGD", "Adam", "AdamW"])
+            if kn["n_params"] > 100:
+                kind = rng.choice(["Adam", "Adam", "AdamW", "SGD"])
+                k = len(ids)
             hp = self._gen_hp(rng, kind)
             if st.root:
                 # with tied storage and weight decay the result depends on the ORDER in which the entries of the list are updated
@@ -192,6 +197,12 @@ class OptSim(Sim):
         if rng.random() < 0.05 and st.P:
             i = rng.choice(sorted(st.P))
             return {"k": "set_rg", "p": i, "v": not st.P[i].requires_grad}
+        if rng.random() < 0.03 and st.P:
+            # a documented call re-binds a parameter's data AFTER the optimizer was built (model.apply(init_weights) after creating the
+            # optimizer): the optimizer must keep following the tensor the model holds
+            cands = [i for i in sorted(st.P) if i not in st.root and not any(r == i for (r, h) in st.root.values()) and st.P[i].data.ndim >= 1]
+            if cands:
+                return {"k": "init_rebind", "p": rng.choice(cands), "fn": rng.choice(["uniform_", "normal_", "ones_", "constant_"]), "seed": rng.randrange(10 ** 6)}
         if rng.random() < 0.04 and oids:
             # the optimizer object is thrown away and built again over the same parameters (checkpoint reload, lr schedule by re-creation):
             # the new instance starts from empty state
@@ -368,6 +379,8 @@ class OptSim(Sim):
         obj = st.must("C08.constructor_raises", f"{ev['kind']}({hp})", self._make, st, ev["kind"], [st.P[i] for i in ids], hp)
         hp = self._effective(hp)
         st.opts[ev["oid"]] = {"obj": obj, "ids": ids, "model": OptModel(ev["kind"], hp, len(ids)), "kind": ev["kind"], "hp": hp, "steps": 0}
+        if len(ids) > 128:
+            st.probes["more_than_128_parameter_tensors"] += 1
         st.probes[ev["kind"].lower()] += 1
         if ev["kind"] == "SGD":
             if hp["nesterov"]: st.probes["nesterov"] += 1
@@ -388,6 +401,23 @@ class OptSim(Sim):
         st.must("C08.flag_setter_raises", f"requires_grad = {ev['v']} on a float leaf", setattr, p, "requires_grad", ev["v"])
         st.probes["requires_grad_toggled_mid_run"] += 1
         st.ledger_unknown.add(ev["p"])
+
+    def _ev_init_rebind(self, st, ev):
+        p = st.P.get(ev["p"])
+        if p is None:
+            st.skipped += 1
+            return
+        init = st.SG.init
+        saved = np.random.get_state()
+        np.random.seed(ev["seed"])
+        try:
+            with quiet():
+                getattr(init, ev["fn"])(p, 0.25) if ev["fn"] == "constant_" else getattr(init, ev["fn"])(p)
+        except Exception as e:
+            st.fail("C08.harness_init", f"{ev['fn']} on a parameter raised {type(e).__name__}: {e}")
+        finally:
+            np.random.set_state(saved)
+        st.probes["parameter_data_rebound_by_initialiser_after_optimizer_was_built"] += 1
 
     def _ev_opt_recreate(self, st, ev):
         o = st.opts.get(ev["oid"])
